@@ -138,6 +138,8 @@ class ConcreteEnv(BaseEnv):
     def bytes_eq(self, a, b):
         return bytes(a) == bytes(b)
 
+    len = staticmethod(len)
+
     def is_true(self, cond):
         return bool(cond)
 
@@ -278,6 +280,11 @@ class SymEnv(BaseEnv):
     def from_bytes(data, order="big", signed=False):
         from .sbytes import from_bytes
         return from_bytes(data, order, signed=signed)
+
+    @staticmethod
+    def len(o):
+        from .shims import sx_len
+        return sx_len(o)
 
     def bytes_eq(self, a, b):
         from .sbytes import SymBytes, items_of
